@@ -3,7 +3,7 @@ From Coq Require Import List NArith ZArith Bool.
 From Coq.Strings Require Import Byte.
 From RecordUpdate Require Import RecordSet.
 From Model Require Import Bytes Utf8 Frame Conn.
-From Proofs Require Import ApiFacts CloseFacts DeliveryFacts StreamViolation CloseStream.
+From Proofs Require Import ApiFacts CloseFacts DeliveryFacts StreamViolation CloseStream DeliveryZ CloseStreamZ.
 From Props Require C01.
 Import ListNotations RecordSetNotations.
 Open Scope N_scope.
@@ -119,3 +119,23 @@ Print Assumptions C08_quiet_while_closing.
 
 Example C08_closing_idle_nonvacuous : closing_idle (fst (ws_close C01.c0 (Some 1000) [])).
 Proof. vm_compute. repeat split; reflexivity. Qed.
+
+(* The same on a connection that negotiated permessage-deflate (CloseStreamZ.v): after any conforming prefix of compressed
+   and uncompressed messages (any fragmentation, control frames between), the server's Close -- a control frame, never
+   compressed -- yields exactly one Closing with its code and reason, and on a working transport the library writes the owed
+   Pongs and then exactly one Close frame with byte-for-byte the server's payload *)
+Theorem C08_server_close_after_conforming_prefix_compressed_connection : forall cf app, benign app -> zpos (c_ping_timeout cf) = None ->
+  forall d fs lfs c open tape ms open' tape' f lf code reason,
+  Proofs.DeliveryZ.idle_z d c open tape -> data_head open -> Forall Proofs.DeliveryZ.zframe fs -> forms_ok fs lfs ->
+  Proofs.DeliveryZ.ref_messages_z open tape fs = Some (ms, open', tape') ->
+  Proofs.DeliveryZ.zframe f -> f_rsv1 f = false -> f_op f = OP_CLOSE -> f_fin f = true -> blen (f_payload f) <= 125 ->
+  form_ok lf (blen (f_payload f)) = true ->
+  good_close (f_payload f) code reason ->
+  exists c', feedf cf app c (encode_all fs lfs ++ enc_frame f lf) = (c', SOk) /\
+    msg_events (k_tr c') = EvClosing code reason :: rev (map ev_of ms) ++ msg_events (k_tr c) /\
+    perrors (k_tr c') = perrors (k_tr c) /\
+    k_closing c' = true /\ k_closed c' = false /\
+    (c_ping_rate cf = 0%Z -> c_auto_pong cf = true -> wok c ->
+     writes (k_tr c') = (OP_CLOSE, f_payload f) :: rev (pong_replies ms) ++ writes (k_tr c)).
+Proof. exact Proofs.CloseStreamZ.server_close_after_prefix_z. Qed.
+Print Assumptions C08_server_close_after_conforming_prefix_compressed_connection.
